@@ -495,3 +495,37 @@ Proof.
   - exact Hchar.
   - exists l. split; [reflexivity | exact Hfills].
 Qed.
+
+(* ---- lattice + fill: who owns the points of a lattice element ---- *)
+(* after develop_lattice of cell [key] and the "treat FILL" loop: the leaf at
+   the head of a returned cell's chain is either a parsed cell other than the
+   lattice cell (the returned cell carries its material and density) or one of
+   the lattice's element cells — an element of the lattice's own universe — and
+   then the returned cell carries the material and density of the lattice cell *)
+Theorem lattice_leaf_material : forall d next key univs c d1 n1 fuel st' ks,
+  NoDup (map fst d) -> pristine d -> fresh (d, next) -> lookup key d = Some c ->
+  develop_lattice (d, next) key univs = Ok (d1, n1) ->
+  treat_fill fuel d1 n1 = Ok (st', ks) ->
+  Forall (fun k => exists ck, lookup k (fst st') = Some ck /\ c_fill ck = None /\
+            let h := head_of (fst st') k in
+            (forall L, lookup h d = Some L ->
+               h <> key /\ c_fill L = None /\ c_mat ck = c_mat L /\ c_dens ck = c_dens L) /\
+            (lookup h d = None ->
+               (next < h <= n1)%Z /\ c_mat ck = c_mat c /\ c_dens ck = c_dens c)) ks.
+Proof.
+  intros d next key univs c d1 n1 fuel st' ks Hnd Hpr Hfr Hkey Hdev Ht.
+  destruct (develop_lattice_spec d next key univs c d1 n1 Hnd Hpr Hfr Hkey Hdev)
+    as [Hpr1 [Hfr1 [Hgone [Hkeep [Hchar _]]]]].
+  destruct (provenance_head_is_leaf fuel d1 n1 st' ks Hpr1 Hfr1 Ht) as [_ [Hfin _]].
+  eapply Forall_impl; [|exact Hfin]. intros k [ck [L [H1 [H2 [H3 [H4 [H5 [H6 _]]]]]]]].
+  exists ck. split; [exact H1|]. split; [exact H2|]. cbv zeta.
+  unfold head_of. rewrite H1.
+  destruct (Hchar _ _ H3) as [Hd | [Hd [Hrange [Hm [Hdn _]]]]].
+  - split.
+    + intros L' HL'. rewrite Hd in HL'. inversion HL'; subst L'.
+      split; [|auto]. intros He. rewrite He, Hgone in H3. discriminate.
+    + intros Hn. rewrite Hd in Hn. discriminate.
+  - split.
+    + intros L' HL'. rewrite Hd in HL'. discriminate.
+    + intros _. split; [exact Hrange|]. rewrite H5, H6, Hm, Hdn. auto.
+Qed.
